@@ -22,12 +22,15 @@ CONTEXTS = {
                    lambda a: a.ext[0].body.block_items[0].stmt.block_items[0].expr),
     "bit_width": ("struct S { int m : %s; };", 3, lambda a: a.ext[0].type.decls[0].bitsize),
     "enum_value": ("enum En { A = %s };", 3, lambda a: a.ext[0].type.values.enumerators[0].value),
+    "labelled": ("void f(void){ L: %s; }", 1, lambda a: a.ext[0].body.block_items[0].stmt),
+    "case_statement": ("void f(void){ switch (0) { case 1: %s; } }", 1,
+                       lambda a: a.ext[0].body.block_items[0].stmt.block_items[0].stmts[0]),
 }
 
 
-def cfg_text(maxops, modes, concrete, export=True, inv=True):
-    return ("CONSTANTS MaxOps = %d\nModes = {%s}\nConcrete = %s\nINIT Init\nNEXT Next\n" % (
-        maxops, ",".join('"%s"' % m for m in modes), "TRUE" if concrete else "FALSE")
+def cfg_text(maxops, modes, concrete, export=True, inv=True, binonly=False):
+    return ("CONSTANTS MaxOps = %d\nModes = {%s}\nConcrete = %s\nBinOnly = %s\nINIT Init\nNEXT Next\n" % (
+        maxops, ",".join('"%s"' % m for m in modes), "TRUE" if concrete else "FALSE", "TRUE" if binonly else "FALSE")
         + ("INVARIANT ShapeOK\nINVARIANT Balanced\n" if inv else "")
         + ("INVARIANT Export\n" if export else "") + "CHECK_DEADLOCK FALSE\n")
 
@@ -37,14 +40,31 @@ def render(toks, rl, level):
     return "(" + s + ")" if rl < level else s
 
 
+def literalise(toks, ast):
+    """The same derivation with its FIRST leaf spelled as a constant (v1 -> 7): statements that begin with a literal."""
+    def sub(v):
+        if isinstance(v, dict):
+            if v.get("k") == "ID" and v.get("name") == "v1":
+                return {"k": "Constant", "type": "int", "value": "7"}
+            return {k: sub(x) for k, x in v.items()}
+        if isinstance(v, list):
+            return [sub(x) for x in v]
+        return v
+    return ["7" if t == "v1" else t for t in toks], sub(ast)
+
+
 def check_one(case, ctxnames=None):
     """Returns list of (ctx, signature, detail) failures for one exported state."""
     from pycparser import c_parser
     out = []
-    exp = strip(case["ast"])
-    for cname in (ctxnames or CONTEXTS):
+    exp0 = strip(case["ast"])
+    runs = [(c, case["toks"], exp0) for c in (ctxnames or CONTEXTS)]
+    if case["toks"] and case["toks"][0] in ("v1", "(") and "v1" in case["toks"]:
+        lt, la = literalise(case["toks"], exp0)
+        runs += [(c, lt, la) for c in (ctxnames or CONTEXTS) if c in ("labelled", "case_statement", "statement")]
+    for cname, toks, exp in runs:
         tmpl, lvl, get = CONTEXTS[cname]
-        src = tmpl % render(case["toks"], case["rl"], lvl)
+        src = tmpl % render(toks, case["rl"], lvl)
         try:
             ast = c_parser.CParser().parse(src, "e.c")
         except Exception as e:  # rejection of a derivable expression
@@ -87,17 +107,21 @@ def replay_population(ctx, exports, label):
 def run(tier):
     ctx = Ctx("C02", tier, "model_checking")
     ctx.cov["rule"] = ("every complete derivation of spec/CExpr.tla (C99 6.5 level table) within MaxOps "
-                       "operator nodes, each in 8 expression contexts; a case is one (tree, parenthesisation "
+                       "operator nodes, each in 10 expression contexts; a case is one (tree, parenthesisation "
                        "mode); distinct_nontrivial counts distinct exported trees")
     rnd = random.Random(ctx.seed)
     plans = []
     if tier == "quick":
         plans.append(("ops<=2 concrete min/full/red", dict(maxops=2, modes=["min", "full", "red"], concrete=True), None))
         plans.append(("ops<=3 class representatives min (sample 20000)", dict(maxops=3, modes=["min"], concrete=False), 20000))
+        plans.append(("flat chains: binary operators only (one per level), ops<=4, every tree shape (sample 40000)",
+                      dict(maxops=4, modes=["min"], concrete=False, binonly=True), 40000))
     else:
         plans.append(("ops<=2 concrete red", dict(maxops=2, modes=["red"], concrete=True), None))
         plans.append(("ops<=3 concrete min", dict(maxops=3, modes=["min"], concrete=True), None))
         plans.append(("ops<=3 concrete full", dict(maxops=3, modes=["full"], concrete=True), None))
+        plans.append(("flat chains: binary operators only (one per level), ops<=5, every tree shape",
+                      dict(maxops=5, modes=["min"], concrete=False, binonly=True), 400000))
     for label, kw, sample in plans:
         exports = []
         res = tlc("CExpr", cfg_text(**kw), on_export=exports.append, timeout=1800)
